@@ -142,7 +142,9 @@ class _Sym:
 
     def flag(self, name):
         """A solver-chosen bool returned concrete."""
-        return True if self.bool(name) else False
+        r = True if self.bool(name) else False
+        self.choices.append(int(r))
+        return r
 
     def pick(self, name, seq):
         return seq[self.choice(name, len(seq))]
